@@ -38,8 +38,11 @@ Reason(r) ==
     [] r.op = "age" -> IF post = { IF p.addr = a THEN [p EXCEPT !.ago = r.args[1].port] ELSE p : p \in pre } THEN "ok" ELSE "harness-ageing"
     [] r.op = "clear" -> IF post = ClearOld(pre, r.expiration) THEN "ok"
                          ELSE IF \E p \in pre : p.trusted /\ p.addr \notin Addrs(post) THEN "trusted-peer-dropped-as-stale" ELSE "clear-old"
-    \* a restart keeps the (valid) peers, bounded by max; trust is re-derived from the configuration, retry counters start again
-    [] r.op = "reload" -> IF r.res = "ok" /\ Addrs(post) \subseteq Addrs(pre) /\ (r.max > 0 /\ Cardinality(pre) <= r.max => Addrs(post) = Addrs(pre))
+    \* a restart keeps the (valid) peers, bounded by max; trust is re-derived from the configuration, retry counters start again;
+    \* peers that failed more than MaxPeerRetryTimes (10) connection attempts in a row are not written to the peers file
+    \* (peerlist.save, by design - the trusted ones come back from the configured default connections)
+    [] r.op = "reload" -> IF r.res = "ok" /\ Addrs(post) \subseteq Addrs(pre)
+                             /\ (r.max > 0 /\ Cardinality(pre) <= r.max => Addrs(post) = { p.addr : p \in { q \in pre : q.retry <= 10 } })
                              /\ \A p \in post : ~p.trusted /\ p.retry = 0 /\ p.ago = Get(pre, p.addr).ago THEN "ok" ELSE "reload"
     [] OTHER -> "unknown-op"
 
